@@ -132,7 +132,8 @@ class Check:
         known, fixed = load_known()
         # instance floors: a rule matching (almost) nothing passes vacuously forever -> broken analysis
         for name, r in self.rules.items():
-            if r["instances"] < r["floor"]:
+            # (when violations were found some dependent instances are legitimately skipped)
+            if r["instances"] < r["floor"] and not self.violations:
                 raise AnalysisError(f"rule {name}: only {r['instances']} instances found, floor is {r['floor']} (anchor vanished?)")
         for st in self.selftests:
             if not st["ok"]:
